@@ -130,10 +130,10 @@ def table():
         lo = -(-din // dout)
         return dict(num_term=draw(st.integers(lo, din * dout + 1)), dim_in=din, dim_out=dout, tag_complex=draw(st.booleans()))
 
-    def v_kraus(ctx, k, x):
+    def v_kraus(ctx, k, x, tol=1e-9):
         ctx.require(x.shape == (k['num_term'], k['dim_out'], k['dim_in']), 'rand_kraus_op: shape')
         ctx.require(np.iscomplexobj(x) == k['tag_complex'], 'rand_kraus_op: field follows tag_complex')
-        ctx.close(np.einsum('sai,saj->ij', x.conj(), x), np.eye(k['dim_in']), 1e-9, 'rand_kraus_op: complete Kraus set')
+        ctx.close(np.einsum('sai,saj->ij', x.conj(), x), np.eye(k['dim_in']), tol, 'rand_kraus_op: complete Kraus set')
     add('rand_kraus_op', s_kraus(), lambda k, s: R.rand_kraus_op(k['num_term'], k['dim_in'], k['dim_out'], tag_complex=k['tag_complex'], seed=s), v_kraus)
 
     @st.composite
@@ -142,23 +142,23 @@ def table():
         lo = -(-din // dout)
         return dict(dim_in=din, dim_out=dout, rank=draw(st.one_of(st.none(), st.integers(lo, din * dout))))
 
-    def v_choi(ctx, k, x):
+    def v_choi(ctx, k, x, tol=1e-9):
         din, dout = k['dim_in'], k['dim_out']
         ctx.require(x.shape == (din * dout, din * dout), 'rand_choi_op: shape')
-        _herm(ctx, x, 'rand_choi_op', 1e-9)
+        _herm(ctx, x, 'rand_choi_op', tol)
         ev = np.linalg.eigvalsh((x + x.conj().T) / 2)
-        ctx.require(ev.min() > -1e-9, 'rand_choi_op: positive')
-        ctx.close(np.einsum('iaja->ij', x.reshape(din, dout, din, dout)), np.eye(din), 1e-9, 'rand_choi_op: trace preserving (Tr_out = I)')
+        ctx.require(ev.min() > -tol, 'rand_choi_op: positive')
+        ctx.close(np.einsum('iaja->ij', x.reshape(din, dout, din, dout)), np.eye(din), tol, 'rand_choi_op: trace preserving (Tr_out = I)')
         if k['rank'] is not None:
             ctx.require(int((ev > 1e-8).sum()) <= k['rank'], 'rand_choi_op: rank at most the requested rank', f'{int((ev > 1e-8).sum())} vs {k["rank"]}')
     add('rand_choi_op', s_choi(), lambda k, s: R.rand_choi_op(k['dim_in'], k['dim_out'], rank=k['rank'], seed=s), v_choi)
 
-    def v_povm(ctx, k, x):
+    def v_povm(ctx, k, x, tol=1e-9):
         d, n = k['dim'], k['num_term']
         ctx.require(x.shape == (n, d, d), 'rand_povm: shape')
-        _herm(ctx, x, 'rand_povm', 1e-9)
-        ctx.require(min(np.linalg.eigvalsh((e + e.conj().T) / 2).min() for e in x) > -1e-9, 'rand_povm: elements positive')
-        ctx.close(x.sum(axis=0), np.eye(d), 1e-9, 'rand_povm: resolves the identity')
+        _herm(ctx, x, 'rand_povm', tol)
+        ctx.require(min(np.linalg.eigvalsh((e + e.conj().T) / 2).min() for e in x) > -tol, 'rand_povm: elements positive')
+        ctx.close(x.sum(axis=0), np.eye(d), tol, 'rand_povm: resolves the identity')
     add('rand_povm', st.fixed_dictionaries(dict(dim=st.integers(1, 5), num_term=st.integers(1, 6))), lambda k, s: R.rand_povm(k['dim'], k['num_term'], seed=s), v_povm)
 
     @st.composite
@@ -411,9 +411,40 @@ def _strat(draw, tier='quick'):
     return dict(fn=name, kwargs=kw, seed=draw(_seed), noise=[list(x) for x in draw(_noise)])
 
 
+# Generators that normalise a random Gram matrix with its inverse square root (Kraus / Choi / POVM): the output is a member of the advertised set up to
+# eps * cond^2 of the draw, and nearly singular draws do occur (square Gaussian matrices; about one draw in 1e5 misses 1e-9). A miss of the tight tolerance is
+# therefore tolerated (label 'ill-conditioned draw tolerated') only if the same output passes the structural threshold 1e-2 - any wrong axis / missing conjugate /
+# missing square root is O(1) - AND at least 3 of the 4 neighbouring seeds pass the tight tolerance, so a systematic loss of accuracy is still a violation.
+CONDITIONED = {'rand_kraus_op', 'rand_choi_op', 'rand_povm'}
+
+
+def _validate_conditioned(ctx, validate, call, kw, x, neighbour_seeds):
+    from ..core import Violation
+    try:
+        validate(ctx, kw, x)
+        return
+    except Violation as first:
+        validate(ctx, kw, x, tol=1e-2)
+        good = 0
+        for s2 in neighbour_seeds:
+            try:
+                validate(ctx, kw, call(kw, s2))
+                good += 1
+            except Violation:
+                pass
+        if good < 3:
+            raise first
+        ctx.label('ill-conditioned draw tolerated')
+
+
 def run_random(ctx, case):
     name, kw, seed, noise = case['fn'], case['kwargs'], case['seed'], [tuple(x) for x in case['noise']]
-    strat, call, validate = T()[name]
+    strat, call, validate0 = T()[name]
+    if name in CONDITIONED:
+        def validate(ctx_, kw_, x_):
+            _validate_conditioned(ctx_, validate0, call, kw_, x_, [(seed + j) % 2 ** 32 for j in (1, 2, 3, 4)])
+    else:
+        validate = validate0
     nondefault = any(v not in (None, False) for k, v in kw.items() if k not in ('dim', 'dimA', 'dim_in', 'dim_out', 'n', 'd', 'N0', 'num_term', 'num_matrix', 'partition'))
     ctx.note(klass=name, desc=[name, sorted((k, repr(v)[:12]) for k, v in kw.items() if not isinstance(v, int) or isinstance(v, bool)), [o for o, _ in noise]],
              nontrivial=(len(noise) > 0 and nondefault), labels=[name, 'noise' if noise else 'no-noise', 'seed0' if seed == 0 else 'seed!=0'])
